@@ -306,6 +306,12 @@ def gen_x86_64_linux(rng, force=None):
     if rng.random() < 0.3:
         tb.map(0x400000, rand_ram_page(), 1)
         img.regions.append(("user", 0x400000, 0x400fff, False))
+    if f.get("ldt", levels == 4 and page_offset >= 0xffff888000000000 and rng.random() < 0.3):
+        # Linux >= 4.20 with PTI: the LDT remap area sits below the direct mapping; the root of a task with an LDT maps a page at
+        # 0xffff880000000000 that is not physical 0 (the lowest mapped address of the region is not the start of the direct map)
+        tb.map(0xffff880000000000, rand_ram_page() | 0x1000, 1)
+        img.regions.append(("ldt", 0xffff880000000000, 0xffff880000000fff, False))
+        d["ldt"] = True
     tb.store(img)
     img.walk = tb.walk
     d["root_pa"] = root_pa
@@ -318,7 +324,8 @@ def gen_x86_64_linux(rng, force=None):
     if told["cr3"]:
         img.sym("reg", "cr3", root_pa | pick(rng, [0, 0, 0x18, 0x801]))
     if told["rootopt"] == "phys":
-        img.opts["rootpgt"] = "%d:%d" % (pick(rng, [KPHYS, MACHPHYS]), root_pa)
+        # a root given as a raw CR3 value carries PCID / PWT / PCD in its low 12 bits
+        img.opts["rootpgt"] = "%d:%d" % (pick(rng, [KPHYS, MACHPHYS]), root_pa | pick(rng, [0, 0, 0x18, 0x801, 0xfff]))
     elif told["rootopt"] == "kv":
         img.opts["rootpgt"] = "%d:%d" % (KV, root_va)
     d["rootsrc"] = "+".join(k for k in ("rootopt", "top", "l4", "cr3") if told[k]) or "none"
